@@ -98,3 +98,147 @@ def finalize(sc):
 
 def sched_op(s, q=None, d=None, count=None, rwd=True, name=None, replace=True):
     return ["schedule", s, q, d, count, rwd, name, replace]
+
+
+# ---- lifecycle histories (C02 C06 C07 C17) -----------------------------------------------------------
+class Pitches:
+    """hands out (note, channel) keys unique within a scenario and remembers what each voice should do"""
+    def __init__(self):
+        self.next = 1
+        self.voices = {}          # (note, chan) -> {"glen": Fraction beats or None, "on": bool, "track": tag}
+
+    def take(self, n):
+        if self.next + n > 127:
+            return None
+        base = self.next
+        self.next += n
+        return base
+
+
+def lifecycle_stream(rng, tpb, pit, chan, opts, n_callbacks):
+    """a stream of 1..5 events for the track tagged [chan]"""
+    tick = F(1, tpb)
+    n = rng.randint(1, 5)
+    durs = durations_for(rng, tpb, n, on_grid_share=0.6)
+    items = []
+    gates = opts.get("gates", GATE_POOL)
+    for d in durs:
+        r = rng.random()
+        if opts.get("faults") and r < 0.10:
+            items.append({"k": rng.choice(["raise_eval", "raise_ctor"])})
+            continue
+        if opts.get("callbacks") and n_callbacks and r < 0.22:
+            items.append({"k": "action", "cb": rng.randrange(n_callbacks), "dur": d})
+            continue
+        if opts.get("controls") and r < 0.30:
+            items.append({"k": rng.choice(["control", "program"]), "dur": d, "ctl": rng.randint(0, 119), "val": rng.randint(0, 127),
+                          "prog": rng.randint(0, 127), "chan": chan})
+            continue
+        nv = 1 if rng.random() < 0.6 else rng.randint(2, 4)
+        base = pit.take(nv)
+        if base is None:
+            break
+        ev = note_event(rng, d, base, chan, allow_silent=opts.get("silent", True), chord=nv, gates=gates)
+        # make pitches consecutive (note_event spaces them by 3)
+        if isinstance(ev["note"], list):
+            ev["note"] = [base + i for i in range(len(ev["note"]))]
+        elif ev["note"] is not None:
+            ev["note"] = base
+        items.append(ev)
+        # record what each voice must do
+        if ev["note"] is not None:
+            notes = ev["note"] if isinstance(ev["note"], list) else [ev["note"]]
+            for i, nt in enumerate(notes):
+                amp = ev["amp"][i] if isinstance(ev["amp"], list) else ev["amp"]
+                ch = ev["chan"][i] if isinstance(ev["chan"], list) else ev["chan"]
+                g = ev["gate"]
+                if g is not None and (g == [] or isinstance(g[0], (list, type(None)))):
+                    g = g[i]
+                on = bool(ev.get("active", True)) and amp is not None and amp > 0 and g is not None and g[0] > 0
+                pit.voices[(nt, ch)] = {"glen": (F(d) * F(g[0], g[1])) if g is not None else None, "on": on, "vel": amp, "track": chan}
+    if not items:
+        items = [{"k": "note", "dur": tick * tpb, "note": None, "amp": 64, "gate": [1, 1], "chan": chan}]
+    cyclic = rng.random() < opts.get("cyclic_share", 0.35)
+    form = "scripted" if any(i["k"].startswith("raise") for i in items) else rng.choice(["scripted", "psequence", "psequence", "pdict"])
+    return stream(items, cyclic, form)
+
+
+def gen_lifecycle(rng, opts):
+    tpb = rng.choice(opts.get("tpbs", [1, 7, 10, 24, 96, 480]))
+    tick = F(1, tpb)
+    pit = Pitches()
+    ncb = rng.randint(1, 2) if opts.get("callbacks") else 0
+    cfg = {"stop_when_done": rng.random() < opts.get("swd_share", 0.5)}
+    if opts.get("faults"):
+        cfg["ignore"] = rng.random() < opts.get("ignore_share", 0.7)
+    if opts.get("max_tracks"):
+        cfg["max_tracks"] = rng.choice([0, 0, 1, 2, 3])
+    if opts.get("dev_faults") and rng.random() < 0.4:
+        cfg["dev_fail"] = rng.randint(0, 12)
+    ntracks = rng.randint(1, opts.get("max_n_tracks", 4))
+    budget = opts.get("budget", 600)
+    ops = []
+    created = 0
+    chan = 0
+
+    def qd():
+        return (rng.choice([None, None, F(0)] + QD_POOL[:6]) if opts.get("quantize") else None,
+                rng.choice([None, None, F(0)] + QD_POOL[:6]) if opts.get("quantize") else None)
+
+    def new_sched(name_pool):
+        nonlocal created, chan
+        s = lifecycle_stream(rng, tpb, pit, chan % 16, opts, ncb)
+        chan += 1
+        q, d = qd()
+        count = rng.choice([None, None, 0, 1, 2, 5]) if opts.get("counts") else None
+        rwd = True if not opts.get("rwd") else rng.random() < 0.7
+        name = rng.choice(name_pool) if (opts.get("names") and rng.random() < 0.5) else None
+        created += 1
+        return sched_op(s, q, d, count, rwd, name, rng.random() < 0.85)
+
+    callbacks = []
+    for _ in range(ncb):
+        cops = []
+        for _ in range(rng.randint(0, 2)):
+            r = rng.random()
+            if r < 0.5:
+                cops.append(new_sched([0, 1]))
+            elif r < 0.8:
+                s = lifecycle_stream(rng, tpb, pit, chan % 16, opts, 0); chan += 1
+                q, d = qd()
+                cops.append(["update", rng.randrange(4), s, q, d, None])
+            else:
+                cops.append([rng.choice(["mute", "unmute"]), rng.randrange(4)])
+        callbacks.append({"raise": rng.choice(["none", "none", "exc", "stop"]) if opts.get("cb_raise") else "none", "ops": cops})
+    for _ in range(ntracks if rng.random() < 0.7 else 1):
+        ops.append(new_sched([0, 1, 2]))
+    used = 0
+    nsteps = rng.randint(2, 7)
+    for _ in range(nsteps):
+        n = min(budget - used, rng.choice([1, 2, 3, tpb // 2 + 1, tpb, 2 * tpb, 3 * tpb + 1, rng.randint(1, 4 * tpb)]))
+        if n <= 0:
+            break
+        ops.append(["tick", n]); used += n
+        r = rng.random()
+        kinds = opts.get("ops", ["update", "mute", "unmute", "unschedule", "clear", "schedule", "nudge"])
+        k = rng.choice(kinds)
+        t = rng.randrange(max(1, created))
+        if k == "update":
+            s = lifecycle_stream(rng, tpb, pit, chan % 16, opts, ncb); chan += 1
+            q, d = qd()
+            ops.append(["update", t, s, q, d, rng.choice([None, None, 1, 3]) if opts.get("counts") else None])
+        elif k in ("mute", "unmute", "unschedule"):
+            ops.append([k, t])
+        elif k == "clear":
+            if rng.random() < 0.4:
+                ops.append(["clear"])
+        elif k == "schedule":
+            ops.append(new_sched([0, 1, 2]))
+        elif k == "nudge":
+            ops.append(["nudge", t, tick * rng.choice([0, 1, 2, 5])])
+    # let everything that is still sounding end
+    longest = max([v["glen"] for v in pit.voices.values() if v["glen"] is not None] + [F(1)])
+    tail = int(longest / tick) + 3 * tpb + 5
+    ops.append(["tick", min(tail, 9000)])
+    sc = {"tpb": tpb, "config": cfg, "callbacks": callbacks, "ops": ops}
+    return sc, pit
